@@ -91,7 +91,7 @@ fn connect_body(v5: bool, shape: u8, cap: usize) {
         topic_alias_maximum: if pb { Some(tam) } else { None },
         request_response_information: if pb { Some(true) } else { None },
         request_problem_information: if pb { Some(false) } else { None },
-        will_delay_interval_seconds: if has_will { Some(wdi) } else { None },
+        will_delay_interval_seconds: if has_will && !big_will { Some(wdi) } else { None },   // big will: 123 bytes before the correlation data, 134 with it
         will: if has_will { Some(will) } else { None },
         user_properties: if has_prop { Some(vec![UserProperty { name: "n".to_string(), value: "vv".to_string() }]) } else { None },
         ..Default::default()
@@ -122,7 +122,7 @@ fn connect_body(v5: bool, shape: u8, cap: usize) {
         if v5 {
             let wl = w.hole();
             let start = w.n;
-            w.u8(24); w.u32(wdi);
+            if !big_will { w.u8(24); w.u32(wdi); }
             if big_will { w.u8(8); w.lp(F_WILL_RT, 0, 120); w.u8(9); w.lp(F_WILL_CD, 0, 8); }
             let mut t = 0; let mut i = start; while i < w.n { t += w.it[i].size; i += 1; }
             w.fill(wl, t);
@@ -179,7 +179,7 @@ fn c02_connect5_will() { connect_body(true, 1 | 4, 16) }
 fn c02_connect311_full() { connect_body(false, 1 | 2 | 4 | 8 | 16 | 32, 16) }
 
 // @gv props=C02,C07 tier=quick required=yes fns=write_connect_encoding_steps5,compute_connect_packet_length_properties5
-// @gv bounds="CONNECT/MQTT5 with client id and a will whose property section (delay interval, 120-byte response topic, 8 bytes of correlation data = 134 bytes) crosses the one-byte Variable Byte Integer boundary"
+// @gv bounds="CONNECT/MQTT5 with client id and a will whose property section (120-byte response topic = 123 bytes, plus 8 bytes of correlation data = 134 bytes) crosses the one-byte Variable Byte Integer boundary"
 // @gv timeout=1200 mem=5
 #[kani::proof]
 #[kani::unwind(24)]
